@@ -86,6 +86,9 @@ type Sim struct {
 	Probes     map[string]int
 	States     map[uint64]struct{}
 	Nontrivial bool
+	// SigFromTrace: worlds without tasks (sequential clients) use the event-trace hash as the
+	// "distinct case" signature instead of the released-task sequence.
+	SigFromTrace bool
 	Sample     []string // short decoded description of the run for evidence
 
 	hmu        sync.Mutex
